@@ -126,7 +126,12 @@ func init() {
 				o := V5Opts{NegIdx: true, EscapeHTML: c.R.Intn(2) == 0, EnsurePath: true}
 				ro := o.Ref()
 				ro.NullMemberIsMissing = true
-				np := prof.With(func(p *gen.Profile) { p.Strings = []string{"s"}; p.Numbers = []string{"1.0", "1e400"}; p.ScalarBias = 55; p.Keys = []string{"a", "b", "c", "d", "e", "f", "m~n"} })
+				np := prof.With(func(p *gen.Profile) {
+					p.Strings = []string{"s"}
+					p.Numbers = []string{"1.0", "1e400"}
+					p.ScalarBias = 55
+					p.Keys = []string{"a", "b", "c", "d", "e", "f", "m~n"}
+				})
 				sc := &SeqCase{Opts: ro}
 				// every third scalar becomes null
 				v := mustParse(np.Root(c.R))
